@@ -185,4 +185,82 @@ theorem count_coal_marks {samp coal grid : List ℝ} {ev : List (Ev ℝ)} (hperm
   simp only [Function.comp_def] at this ⊢
   rw [this, List.length_map]
 
+/-- core of `suffstats_reproduce_skygrid`: whenever the first sorted event is not a coalescent event (so that the
+`[1:]` slice of `log_prob` drops nothing), statistics and counts reproduce `-log_prob` — ties of any kind allowed -/
+theorem reproduce_of_head (θ grid heights : List ℝ) (e1 : Ev ℝ) (l : List (Ev ℝ))
+    (hS : sortEvents (mkEvents heights grid) = e1 :: l) (hhead : e1.mark ≠ -1) :
+    reproduce θ (skygridSuffStats grid heights).1 (skygridSuffStats grid heights).2
+      = -(skygridLogProb θ grid heights) := by
+  unfold reproduce skygridSuffStats skygridLogProb skygridIntegral skygridLogs
+  simp only [trans_log_real]
+  rw [hS]
+  generalize hev : e1 :: l = ev at hhead
+  have hlenM : (marks ev).length = ev.length := by simp [marks]
+  have hpos : 1 ≤ ev.length := by rw [← hev]; simp
+  have hlenT : (intervalTerms ev).length + 1 ≤ (marks ev).length := by
+    unfold intervalTerms lineages cumsum
+    rw [List.length_zipWith, List.length_dropLast, length_cumsumFrom, length_diffs, hlenM]
+    simp only [times, List.length_map]
+    omega
+  -- the statistics
+  have h1 : (List.zipWith (fun s t => s / t) ((splitAtMarks 0 (marks ev) (intervalTerms ev)).map List.sum) θ).sum
+      = (zipWith3 (fun k d i => (choose2 k : ℝ) * d / θ.getD i 0) (lineages ev) (diffs (times ev))
+          (skygridIdx ev).dropLast).sum := by
+    have hb := idxSum_eq_zipWith (fun s t => s / t) (fun s => by simp)
+      ((splitAtMarks 0 (marks ev) (intervalTerms ev)).map List.sum) θ 0
+    rw [List.drop_zero] at hb
+    rw [← hb]
+    have hr := regroup (fun g => (θ.getD g 0)⁻¹) 0 (marks ev) (intervalTerms ev) 0 (by omega)
+    simp only [div_eq_mul_inv] at hr ⊢
+    rw [← hr]
+    have hz := zipWith3_eq_zipWith (fun k d => (choose2 k : ℝ) * d) (fun i => (θ.getD i 0)⁻¹)
+      (lineages ev) (diffs (times ev)) (skygridIdx ev).dropLast
+    rw [hz]
+    unfold skygridIdx cumsum intervalTerms
+    rw [zipWith_dropLast]
+    rw [length_cumsumFrom]
+    simp only [isMark, List.length_map]
+    exact hlenT
+  -- the counts
+  have h2 : (List.zipWith (fun (c : ℕ) t => ((c : ℤ) : ℝ) * Real.log t)
+        ((splitAtMarks 0 (marks ev) (isMark (-1) (marks ev))).map List.sum) θ).sum
+      = ((List.zipWith (fun m i => if m = -1 then Real.log (θ.getD i 0) else (0 : ℝ)) (marks ev)
+          (skygridIdx ev)).tail).sum := by
+    -- counts as reals
+    have hcast : (List.zipWith (fun (c : ℕ) t => ((c : ℤ) : ℝ) * Real.log t)
+          ((splitAtMarks 0 (marks ev) (isMark (-1) (marks ev))).map List.sum) θ)
+        = List.zipWith (fun s t => s * Real.log t)
+            ((splitAtMarks 0 (marks ev) ((isMark (-1) (marks ev)).map (fun c : ℕ => (c : ℝ)))).map List.sum) θ := by
+      have hsum : ∀ g : List ℕ, (((g.sum : ℕ) : ℤ) : ℝ) = (g.map (fun c : ℕ => (c : ℝ))).sum := by
+        intro g
+        induction g with
+        | nil => simp
+        | cons a g ih => simp only [List.sum_cons, List.map_cons, ← ih]; push_cast; ring
+      rw [splitAtMarks_map, List.map_map, List.zipWith_map_left, List.zipWith_map_left]
+      congr 1
+      funext g t
+      simp only [Function.comp, hsum]
+    rw [hcast]
+    have hb := idxSum_eq_zipWith (fun s t => s * Real.log t) (fun s => by simp)
+      ((splitAtMarks 0 (marks ev) ((isMark (-1) (marks ev)).map (fun c : ℕ => (c : ℝ)))).map List.sum) θ 0
+    rw [List.drop_zero] at hb
+    rw [← hb]
+    have hr := regroup (fun g => Real.log (θ.getD g 0)) 0 (marks ev)
+      ((isMark (-1) (marks ev)).map (fun c : ℕ => (c : ℝ))) 0 (by simp [isMark])
+    rw [← hr]
+    -- indicator × log = the `where`, and position 0 is not a coalescent event
+    subst hev
+    unfold skygridIdx cumsum
+    simp only [marks, isMark, List.map_cons, cumsumFrom, List.zipWith_cons_cons, List.tail_cons, List.sum_cons,
+      List.map_map]
+    rw [if_neg hhead]
+    simp only [Nat.cast_zero, zero_mul, zero_add]
+    rw [List.zipWith_map_left, List.zipWith_map_left]
+    congr 2
+    funext a b
+    simp only [Function.comp]
+    by_cases hm : a.mark = -1 <;> simp [hm]
+  rw [h1, h2]
+  ring
+
 end TT.C20
